@@ -18,7 +18,10 @@ def declined(cm, src):
                 if a.asname and a.name.split(".")[0] != a.asname and a.asname in {"yaml", "requests", "random", "logging"}: rebound.add(a.asname)  # foreign module aliased to a watched name
                 imported.add(nm)
         elif isinstance(n, ast.ImportFrom):
-            for a in n.names: imported.add(a.asname or a.name)
+            for a in n.names:
+                nm = a.asname or a.name
+                if nm in imported: rebound.add(nm)      # the same name imported twice (two seeds of a pair bring the same from-import): which binding a call uses is ambiguous
+                imported.add(nm)
     for n in ast.walk(t):
         if isinstance(n, (ast.Name,)) and isinstance(n.ctx, ast.Store) and n.id in imported: rebound.add(n.id)
         if isinstance(n, (ast.FunctionDef, ast.ClassDef, ast.AsyncFunctionDef)) and n.name in imported: rebound.add(n.name)
